@@ -662,7 +662,7 @@ class Sequence(OrderIndicator):
             num_elements = len(xmlelements)
             item_result = OrderedDict()
             end_of_repetition = False
-            for elm_name, element in self.elements:
+            for elm_name, element in self.elements_nested:
                 try:
                     item_subresult = element.parse_xmlelements(
                         xmlelements, schema, elm_name, context=context
@@ -680,9 +680,11 @@ class Sequence(OrderIndicator):
                         raise
                     item_subresult = None
 
-                # Unwrap if allowed
-                if isinstance(element, OrderIndicator):
-                    item_result.update(item_subresult)
+                # A nested particle which doesn't repeat has no name of its
+                # own: its fields are fields of this sequence.
+                if elm_name is None or isinstance(element, OrderIndicator):
+                    if item_subresult:
+                        item_result.update(item_subresult)
                 else:
                     item_result[elm_name] = item_subresult
 
